@@ -7,6 +7,7 @@ mod c15;
 mod c20;
 mod flow;
 mod kit;
+mod timegrid;
 
 use std::time::Duration;
 
@@ -94,6 +95,18 @@ fn main() {
             run_dfs(&mut rep, "barriers-registry-preemption-bounded", tier.pick(2, 4), wall, move |ch| c20::scenario(ch, thorough, 1));
             rep.finish();
         }
+        "C05" => {
+            let mut rep = Report::new("C05", tier, "model_checking", "sim");
+            rep.rule = "complete grid, enumerated by the stateless explorer: tick x epoch x random host order x sleep lengths (dividing and not dividing the tick, shorter and longer than it) x late host registration step x late client x {crash h1 before step c, bounce after k steps | h1's software returns by itself then bounce | bounce without crash}; every host runs sleep / timeout / interval tasks sampling elapsed, sim_elapsed, since_epoch and tokio Instant; closed-form reference".into();
+            run_dfs(&mut rep, "clock-grid", 0, wall, move |ch| timegrid::c05_scenario(ch, thorough));
+            rep.finish();
+        }
+        "C11" => {
+            let mut rep = Report::new("C11", tier, "model_checking", "sim");
+            rep.rule = "complete grid: tick x duration x client A outcome (Ok / Err at six instants incl. boundary and past-the-duration ones, never, panic in main / awaited task / detached task, Err via awaited task, Err in detached task) x client B x host outcome x {none, crash before run, bounce before run} x zero clients x run vs step-by-step (x random order in thorough), followed by a second run with a late client; reference function on the outcome table at step granularity with boundary coincidences attributed to either adjacent step".into();
+            run_dfs(&mut rep, "run-result-grid", 0, wall, move |ch| timegrid::c11_scenario(ch, thorough));
+            rep.finish();
+        }
         other => vx_core::machinery_error(&format!("vx-sim does not serve {other}")),
     }
 }
@@ -112,6 +125,8 @@ fn replay(path: &str) {
         "C03" => flow::c03_scenario(&mut ch, thorough),
         "C14" => flow::c14_scenario(&mut ch, thorough),
         "C12" => c12::scenario(&mut ch, thorough),
+        "C05" => timegrid::c05_scenario(&mut ch, thorough),
+        "C11" => timegrid::c11_scenario(&mut ch, thorough),
         "C20" => {
             let part = if v["scenario"].as_str().map(|s| s.contains("part=1")).unwrap_or(false) { 1 } else { 0 };
             c20::scenario(&mut ch, thorough, part)
